@@ -460,7 +460,9 @@ class Simplifier(pysmt.walkers.DagWalker):
         if args[0].is_int_constant():
             l = cast(int, args[0].constant_value())
             r = cast(int, args[1].constant_value())
-            return self.manager.Int(l**r)
+            # The type of POW is Real also when the base is an Int
+            # (see FormulaManager.Pow and the type-checker)
+            return self.manager.Real(Fraction(l)**r)
 
         if args[0].is_algebraic_constant():
             from pysmt.constants import Numeral
